@@ -16,7 +16,7 @@ theorem C02_path (s : VState) (hs : s.stack = []) (path : List String) :
     visitAttrPath s path =
       match denote s.item path with
       | .ok v => .ok { s with leftOp := v, stack := [] }
-      | .error p => .error ⟨p, s.calls⟩ :=
+      | .error p => .error ⟨p, s.calls, s.debugErr⟩ :=
   visitAttrPath_spec s hs path
 
 /-- "absent as soon as a step is missing or null; the remaining steps are not looked at" -/
